@@ -163,7 +163,9 @@ func TestVerifC10(t *testing.T) {
 		"container of every other identifier of the type (first/last of other types) under the requested CID; same identifier from another square at the same height; other height; " +
 		"every foreign (codec, multihash, length) prefix; foreign inner-CID framing; on the byte-operator worlds every truncation, single-byte substitution (8 values), deletion, " +
 		"insertion (4 values), all strings of length <= 2}; plus all identifiers of a square pending at once x every honest block x 48 prefixes; plus explicit-state BFS over event orders " +
-		"(start / payload / cancel) of 2-3 concurrent Fetch of one identifier in a synctest bubble; plus identifier<->CID round trip and injectivity over all of these identifiers and a " +
+		"(start / payload / cancel) of 2-3 concurrent Fetch of one identifier in a synctest bubble; plus stateless schedule search (vx.DFS over the choices of the cooperative scheduler verifx/vsched, " +
+		"iterative preemption bound, scheduling points at every sync.Map operation of the verifier registry and every entry lock via import rewrite) of 2-3 threads calling the real Fetch for one CID with the same or another " +
+		"square's header while a delivery goroutine pushes the honest block through the real hasher at any point and one Fetch may be cancelled; plus identifier<->CID round trip and injectivity over all of these identifiers and a " +
 		"boundary sweep. A case is (square, pending set, prefix, bytes); it counts as distinct_nontrivial when the bytes are not the honest block of the pending identifier under its own " +
 		"prefix (accepting it would violate the property) and the (prefix, bytes) pair was not delivered to that pending set before."
 	rep.Assumptions = []string{
@@ -171,9 +173,14 @@ func TestVerifC10(t *testing.T) {
 		"SHA-256 / NMT / Reed-Solomon are not attacked: hostile payloads are honest material in the wrong place and byte operators, not collisions (container-level forgeries are property C01/C02)",
 		"the reference is the rsmt2d square extended by the real celestia-app code and its DataAvailabilityHeader; the serving side reads it through eds.Rsmt2D (other accessors: property C05)",
 		"every work item uses its own height (any two differ in two bytes), so requests pending in parallel workers never share a registry key and no single-byte operator can name another worker's request",
-		"concurrency is explored at event granularity (every goroutine runs to quiescence between events); data races between a hasher still running and a Fetch that already returned are outside this model",
+		"concurrency is explored at event granularity (BFS part) and at the granularity of registry (sync.Map) operations and entry locks (schedule search, sequentially consistent, one thread at a time); unsynchronised accesses, e.g. a hasher still writing a container that a returned Fetch's caller reads, are outside both models",
+		"schedule search: a delivery is the real cid.Prefix.Sum followed by the hand-over to every subscription wanting the resulting CID at that moment (subscriptions made while the hasher runs included, as in boxo where decoding precedes the interest check); trusted: vsync/vsched shim semantics, synctest quiescence",
 	}
 
+	if name := os.Getenv("VERIF_C10_SC"); name != "" { // shard process of the schedule search: one scenario, nothing else
+		vbSCShard(t, rep.Tier, name)
+		return
+	}
 	if rp := os.Getenv("VERIF_REPLAY"); rp != "" {
 		vbReplayFile(t, rep, rp)
 		return
@@ -184,6 +191,8 @@ func TestVerifC10(t *testing.T) {
 	col := &vbCollector{rep: rep, sigs: map[string]int{}}
 	exhaustive := true
 	total := vbNewStats()
+	// the schedule search runs in single-P shard processes next to everything else
+	scWait := vbSCStart(t, rep, col, deadline)
 
 	// warm-up outside any bubble (lazily initialised globals) + determinism self-check
 	{
@@ -333,6 +342,10 @@ func TestVerifC10(t *testing.T) {
 	wg.Wait()
 
 	lap("input_enumeration")
+	if !scWait() {
+		exhaustive = false
+	}
+	lap("waiting_for_schedule_search_shards")
 	rep.Set("wall_s_by_part", parts)
 	bounds := map[string]string{}
 	for g, n := range plan.groups {
@@ -364,7 +377,7 @@ func TestVerifC10(t *testing.T) {
 	rep.Set("trials_by_pending_type", vbSortedCounts(total.kinds))
 	rep.Set("cross_identifier_confirmation_runs", total.confirmRuns)
 	rep.Set("violations_by_signature", col.sigs)
-	rep.Set("explanation", "states/transitions are those of the concurrent-fetch BFS; evaluations = payloads pushed through the hasher (each inside an execution of the real Fetch) + BFS instance executions + identifiers checked for the CID round trip")
+	rep.Set("explanation", "states/transitions are those of the concurrent-fetch BFS plus, for the stateless schedule search, distinct terminal outcomes / scheduling decisions taken; evaluations = payloads pushed through the hasher (each inside an execution of the real Fetch) + BFS instance executions + identifiers checked for the CID round trip")
 	vbAddSamples(rep)
 	rep.SetExhaustive(exhaustive)
 	for _, s := range col.infra {
@@ -421,6 +434,8 @@ func vbReplayFile(t *testing.T, rep *vx.Report, path string) {
 		switch rp.Mode {
 		case "cid":
 			return vbCheckCID(*rp.CID)
+		case "sc":
+			return vbSCReplay(t, rp)
 		case "conc":
 			w, err := vbConcWorld(*rp.Conc)
 			if err != nil {
